@@ -1250,6 +1250,9 @@ class TableMachine(ListingBase):
         rng.shuffle(order)
         order = order + [order[rng.randrange(n)] for _ in range(min(n, 3))]
         for vi, i in enumerate(order):
+            if ch[0] % 3 == 0 and vi == 1 + (ch[0] // 3) % max(1, len(order) - 1):
+                # meanwhile another part of the program opens a listing of another simulator
+                self.other_reader(2 * (ch[0] // 7))
             self.position(lst2, i, n, ch[1] + vi)
             got = self.snap(lst2)
             want = self.fresh_at(self.rel, old_data, (), i)
@@ -1309,11 +1312,15 @@ class TableMachine(ListingBase):
         n, names = self.fresh_meta()
         mask = 1 + ch[0] % (2 ** len(names) - 1)
         skip = tuple(nm for b, nm in enumerate(names) if mask >> b & 1)
-        as_str = False      # the documentation gives skip_tables as a list of names
+        # the documentation gives skip_tables as a list of names; the project's own tests also
+        # pass one name as a plain string, which the readers match by substring (so it may skip
+        # more than the table named): then only "what is exposed holds what the file prints" is
+        # demanded
+        as_str = len(skip) == 1 and ch[1] % 3 == 0
         name = self.fs_name(self.rel, self.data)
         self.ctx.fs.put(name, self.data)
         self.op_budget = self.budget(self.data, n)
-        what = 'opening %s with skip_tables=%r' % (self.rel, skip)
+        what = 'opening %s with skip_tables=%r' % (self.rel, skip[0] if as_str else skip)
         lst = self.guarded(lambda: self.tl.t2listing(ROOT + name,
                                                      skip_tables=skip[0] if as_str else list(skip)),
                            what)
@@ -1327,6 +1334,8 @@ class TableMachine(ListingBase):
             for name in want[3]:
                 if name in skip:
                     continue
+                if name not in got[3] and as_str:
+                    continue
                 if name not in got[3]:
                     raise Violation('P5', '%s: table %s disappeared' % (what, name),
                                     key=self.p5_key(skip))
@@ -1338,6 +1347,8 @@ class TableMachine(ListingBase):
                                     key=self.p5_key(skip))
         lst.close()
         self.ctx.probes['skip_subset_size_%d' % len(skip)] += 1
+        if as_str:
+            self.ctx.probes['skip_tables_as_a_plain_string'] += 1
         return skip
 
     def p5_key(self, skip):
